@@ -833,7 +833,14 @@ def main():
         "units-managed classes store internal units (c18_units_context_irrelevant); monitored through the raw-content comparison",
         "basis changes in tie B are signed permutations so that every transformation is exact",
     ]
+    chk.assumptions.append(
+        "static tie: _data_with_axis, _extract_data_with_axis, the extension dispatch of save_data/load_data (DataSaveable and MatrixData), "
+        "the writer/reader methods and savedir/loaddir are matched statement by statement against templates (harness/translate_c18.py) and "
+        "their content is proved equal to Model/C18.v through the skeleton lemmas of Proofs/C18gen.v; the translator is trusted to read "
+        "the ast faithfully and the numpy slice assignments have the meaning Proofs/C18gen.v gives them (exact shapes, no broadcasting)")
     chk.prove()
+    import translate
+    translate.static_tie(cm, chk, PID, cm.REPO)      # second, static tie: model regenerated from the current source
     td = tempfile.mkdtemp(prefix="c18_", dir=work)
     try:
         r = cm.rng(PID)
